@@ -72,7 +72,7 @@ func c09Counts(tier string) int64 {
 func init() {
 	Register(&Prop{
 		ID:   "C09",
-		Rule: "workspaces of 1-4 journals from G with shared account/payee/commodity pools (chains, stars, diamonds, random DAGs), with and without workspace root, optionally with an unsaved edit in one open included file; for the cursor on every occurrence of every account, commodity and payee, asked from the root and from every included file: references with and without declarations must be exactly the occurrences in the lexeme tables of the files in scope (workspace tree with a root, the file and its include closure without), each under the URI of the file that contains it; rename must return edits at exactly those spans, and applying them must give exactly the texts in which every occurrence reads the new name (nothing else changes), which must parse silently. Non-trivial = symbol with occurrences in >=2 files; distinct by workspace+symbol hash.",
+		Rule: "workspaces of 1-4 journals from G with shared account/payee/commodity pools (chains, stars, diamonds, random DAGs), with and without workspace root, optionally with an unsaved edit in one open included file, or with the root's first include directive added by an unsaved edit after start-up (the included file and its own includes join the tree then); for the cursor on every occurrence of every account, commodity and payee, asked from the root and from every included file: references with and without declarations must be exactly the occurrences in the lexeme tables of the files in scope (workspace tree with a root, the file and its include closure without), each under the URI of the file that contains it; rename must return edits at exactly those spans, and applying them must give exactly the texts in which every occurrence reads the new name (nothing else changes), which must parse silently. Non-trivial = symbol with occurrences in >=2 files; distinct by workspace+symbol hash.",
 		Notes: []string{"commodity occurrences in P/D/format lines are allowed but not required (the statement names amounts, costs, assertions and commodity directives)", "new names are plain (no quoting needed)"},
 		Cases:       c09Counts,
 		MustObserve: []string{"workspaces", "reference_requests", "rename_requests", "symbols_in_several_files"},
@@ -106,6 +106,25 @@ func runC09(c *Ctx, idx int64) {
 			unsaved = -1
 		}
 	}
+	// optional dynamic include: the root at first lacks its first include directive (the file
+	// and whatever it includes are not part of the tree), which an unsaved edit then adds
+	dynamic := false
+	rootInitial := w.Texts[0]
+	if unsaved < 0 && len(w.Includes[0]) > 0 && r.Chance(1, 3) {
+		j := *w.Journals[0]
+		j.Entries = append([]*MEntry(nil), j.Entries[1:]...)
+		if len(j.Entries) > 0 {
+			cp := *j.Entries[0]
+			if cp.Gap == "none" {
+				cp.Gap = "one"
+			}
+			j.Entries[0] = &cp
+		}
+		rootInitial = j.Render().Text
+		w.render()
+		diskTexts[0] = rootInitial
+		dynamic = true
+	}
 	for i, n := range w.Names {
 		p := filepath.Join(dir, n)
 		os.MkdirAll(filepath.Dir(p), 0o755)
@@ -114,6 +133,14 @@ func runC09(c *Ctx, idx int64) {
 	s := NewSession(dir, SessOpt{Root: w.Root})
 	s.Drain()
 	c.Count("workspaces", 1)
+	if dynamic {
+		c.Count("workspaces_with_include_added_by_edit", 1)
+		u := w.URI(s, 0)
+		s.OpenWait(u, rootInitial)
+		have := s.Stub.PubCount(u)
+		s.ChangeFull(u, w.Texts[0])
+		s.WaitPub(u, have)
+	}
 	if unsaved >= 0 {
 		c.Count("workspaces_with_unsaved_edit", 1)
 		u := w.URI(s, unsaved)
@@ -123,7 +150,7 @@ func runC09(c *Ctx, idx int64) {
 		s.WaitPub(u, have)
 	}
 	for f := range w.Names {
-		if f != unsaved {
+		if f != unsaved && !(dynamic && f == 0) {
 			s.OpenWait(w.URI(s, f), w.Texts[f])
 		}
 	}
@@ -140,6 +167,9 @@ func runC09(c *Ctx, idx int64) {
 		}
 		if unsaved >= 0 {
 			mode += "+unsaved"
+		}
+		if dynamic {
+			mode += "+include-added"
 		}
 		c.Violate(Violation{Kind: kind, Sig: "C09:" + kind + "|" + mode, Pool: "clean", Detail: detail, Witness: wit})
 	}
